@@ -101,7 +101,7 @@ def programs(tier, seed):
     ]
     for pl, pre, eff in fixed:
         out.append((pl, True, pre, eff))
-    n = 12 if tier == "quick" else 400
+    n = 12 if tier == "quick" else 120
     pres = G.sampled_programs(seed * 23 + 1, n, "pre")
     effs = G.sampled_programs(seed * 23 + 2, n, "eff")
     for (pl, c1, pre), (pl2, c2, eff) in zip(pres, effs):
@@ -186,7 +186,7 @@ def tasks_for(tier, seed):
         for m in (rs if tier == "thorough" else rng.sample(rs, min(3, len(rs)))):
             fm = full_map(m)
             for mode in ("applicable", "apply"):
-                for args in G.arg_tuples(params, const, limit=2 if tier == "quick" else 4):
+                for args in G.arg_tuples(params, const, limit=2 if tier == "quick" else 3):
                     beh.append(dict(domain_text=text, action="act", args=args, objects=dict(G.OBJECTS), mode=mode,
                                     label=f"[renamed {m}] {label}", cap=8 if tier == "quick" else 11,
                                     lib_transform="change_signature", renaming=fm, max_paths=1500 if tier == "quick" else 20000))
